@@ -7,7 +7,7 @@ C = {}
 def add(pid, technique, text, note):
     C[pid] = dict(technique=technique, text=text, note=note, ref="DESIGN.md §2 " + pid)
 
-add("C01", "property-based testing (rapid) over byte-level generators + exhaustive prefix enumeration of the repository's snippets; oracle: no panic / returns under watchdog / err == nil / input buffer unchanged; exhaustive sweep of every single fragment repeated in every lexical context plus drawn repetition shapes, measured in thread CPU time at up to three sizes, for the proportional-time clause; thorough adds native go test -fuzz",
+add("C01", "property-based testing (rapid) over byte-level generators + exhaustive prefix enumeration of the repository's snippets; oracle: no panic / returns under watchdog / err == nil / input buffer unchanged / nothing written to stdout, stderr or the logger; exhaustive sweep of every single fragment repeated in every lexical context plus drawn repetition shapes, measured in thread CPU time at up to three sizes, for the proportional-time clause; thorough adds native go test -fuzz",
     "Exploration: every byte prefix of every repository test snippet with hostile tails, hundreds of thousands of mutated / dictionary-soup / random inputs x versions x {callback, nil}, PHP 5 semantic-error programs without callback, an exhaustive sweep (34 lexical contexts x ~330 single fragments repeated to 96 KiB; one version per pair in quick, three in thorough) and a generated search for super-linear behaviour (drawn lexical context x drawn repeated unit of 1-3 fragments x optional nesting, 24/96/384 KiB, CPU-time ratios) plus ~35 fixed shapes up to 1 MiB. No proof of absence.",
     "Proportional time is decided by growth ratios of thread CPU time on repetition shapes (violation: > 10x for 4x the input at two consecutive size steps), so polynomial blow-ups are found but a large constant factor is not; inputs > 1 MiB are not explored; hangs are detected by a 20 s watchdog. One scaling finding is open (unterminated-opener-rescan) and its trigger is excluded from the search by an input pre-filter (counted).")
 add("C02", "property-based testing (rapid): grammar-based program generator with drawn trivia + byte-level inputs (incl. file heads such as byte order marks); round-trip oracle print(parse(src)) == src, with an independent token render to localise faults; the same oracle through the command-line tool (php-parser -pb over generated directories)",
@@ -22,16 +22,16 @@ add("C04", "property-based testing (rapid): byte-level inputs with rewritten lin
 add("C05", "property-based testing (rapid): generated programs under all trivia policies + error-free byte-level inputs; oracle: recorded node span == span recomputed from the node's own token positions with the documented conventions, nesting and sibling order",
     "Exploration: every node of every error-free tree; coverage measured as distinct (kind < parent.slot, family) sites.",
     "Four test-pinned span deviations are tolerated by matchers keyed on node kind/slot/family and reported as KNOWN-FINDING.")
-add("C06", "property-based testing (rapid): valid generated programs + one guaranteed-invalid edit (bracket insert/delete, truncation inside brackets, control byte) must report; error-shape invariants and callback/no-callback differential on arbitrary inputs; thorough adds native go test -fuzz with the same oracle inside the target",
+add("C06", "property-based testing (rapid): valid generated programs + one guaranteed-invalid edit (bracket insert/delete, truncation inside brackets, control byte, deleted ';' between two operands) must report; error-shape invariants and callback/no-callback differential on arbitrary inputs; thorough adds native go test -fuzz with the same oracle inside the target",
     "Exploration: guaranteed-invalid edits with an argument why no PHP grammar accepts them; error message/position/line/order invariants; silent parse => complete tiling tree; tree equality with and without callback incl. PHP 5 semantic-error programs.",
     "Grammar leniency is deliberately not probed (only edits with a proof of invalidity). PHP 5 semantic errors arrive out of source order (open finding).")
 add("C07", "property-based testing (rapid): metamorphic - insert a malformed statement at a drawn boundary of a drawn statement list of a generated program and compare with the error-free parse (prefix preserved, parsing resumes); print-clause invariants on every recovered tree; thorough adds native go test -fuzz for the print clause",
     "Exploration: 18 malformed statements x all statement-list kinds x boundaries; prefix statements compared with tokens and positions; sentinel statement must be found after the error; recovered trees of byte-level inputs checked for invented/duplicated/reordered tokens.",
     "Class bodies are not covered (no error production there, outside the property's lists).")
-add("C08", "property-based testing (rapid): metamorphic - the same generated program rendered under a reference and 2-5 drawn trivia policies must parse to the same structure; plus hand-written pairs for lexer-state-specific gaps",
+add("C08", "property-based testing (rapid): metamorphic - the same generated program rendered under a reference and 2-5 drawn trivia policies must parse to the same structure; plus hand-written pairs for lexer-state-specific gaps, an exhaustive keyword x continuation matrix for the empty gap behind a keyword, and lone-CR renderings under a tolerance that admits only the known warning",
     "Exploration: all inter-token gaps where PHP permits trivia receive none / whitespace (LF, CRLF, tabs, VT, FF) / block, doc, line and hash comments; structure compared with the reference parse and the generator's model.",
-    "Three open findings (comment between ';' and '?>', comment inside __halt_compiler ( ) ;, lone CR) are excluded from the policies and replayed as KNOWN-FINDING.")
-add("C09", "exhaustive enumeration of a (major, minor) grid incl. boundary/huge values against an independent table + property-based differential testing of version pairs, version strings and ordering laws (rapid)",
+    "Two open findings (comment between ';' and '?>', comment inside __halt_compiler ( ) ;) are excluded from the policies and replayed as KNOWN-FINDING; for the third (lone CR) the renderings are generated and only its known warning is tolerated.")
+add("C09", "exhaustive enumeration of a (major, minor) grid incl. boundary/huge values against an independent table + property-based differential testing of version pairs, version strings and ordering laws (rapid); stateful histories of version.New calls whose results are kept and re-checked",
     "Exploration: the grid is enumerated completely; Validate, Parse and the table must agree; default version == 7.4; same-side versions agree on generated, heredoc-soup and byte-level inputs; New/Compare/InRange against reference implementations; the command-line tool's -phpver flag (drawn strings and versions, omitted flag) against the same table and the library's errors for a probe file.",
     "Values between the listed grid points are not enumerated.")
 add("C10", "property-based differential testing (rapid): programs generated from the common PHP 5/7 subset under all trivia policies, parsed under a 5.x and a 7.x version; trees must be equal in structure, tokens and positions; plus the exhaustive operator-nest enumeration over the shared operators",
@@ -49,7 +49,7 @@ add("C13", "property-based stateful testing (rapid): histories of print/dump/tra
 add("C14", "property-based model-based testing (rapid): programs rendered from a namespace/import/reference model; reference name resolver over the model predicts the exact ResolvedNames map (keys by source offset); the same prediction, as a multiset, for the names printed by `php-parser -r`",
     "Exploration: all reference positions x name forms x alias kinds x letter-case variants (ASCII-only folding; non-ASCII near-miss names) x namespace styles x prefix lengths 1-7 are populated (distribution in the evidence); missing, wrong and extra entries fail.",
     "The reference resolver is my transcription of PHP's name-resolution rules as stated in the property.")
-add("C15", "exhaustive enumeration of node kind x slot subsets with unique marker tokens/free-floating tokens/leaves + property-based subtree replacement on parsed trees; oracle: reflective source order + independent canonical-lexeme table",
+add("C15", "exhaustive enumeration of node kind x slot subsets with unique marker tokens/free-floating tokens/leaves + property-based subtree replacement and token-value edits on parsed trees; oracle: reflective source order + independent canonical-lexeme table",
     "Exploration: exhaustive for kinds with <= 10 slots, all/none/single/pair subsets for larger kinds, list lengths and separator-count variants; replacement locality on generated programs.",
     "The canonical-lexeme table is hand-written from PHP syntax; free-text slots (heredoc labels) accept any identifier-like text.")
 add("C16", "exhaustive enumeration of node kind x slot subsets (hostile values, with/without tokens/positions) + property-based testing on parsed trees; oracle: go/parser + lock-step reader against the reflective schema",
